@@ -645,6 +645,8 @@ class Gen:
                     if rng.random() < 0.2:
                         t["surcharge"] = rng.choice(["1%", "2%"])
                 return [t]
+            if k in (12, 13) and not getattr(self, "calc_only", False):
+                k = 15          # (extension keys no regime defines: documents that calculate but do not validate)
             if k == 12:     # same percentage with and without an extension: groups must stay apart, in either order
                 ext = rng.choice([{"es-zz-kind": "A"}, {"es-zz-kind": "B"}, {"es-zz-kind": "A", "es-zz-more": "X"}, {"es-zz-more": "X"},
                                   {"es-zz-kind": "A", "es-zz-more": "X", "es-zz-z": "1"}])   # incl. strict sub-maps of one another
